@@ -1,6 +1,7 @@
 package main
 
 import (
+	"os"
 	"fmt"
 	"go/ast"
 	"go/token"
@@ -22,40 +23,39 @@ type mapRangeReview struct {
 }
 
 var c11MapRanges = []mapRangeReview{
-	{"Compiler.getDeviations", "t", "set", "the list of deviating module names of a model is set-valued (membership only)"},
-	{"Compiler.checkFeatures", "c.modules", "map+error", "fills the verified-feature map per feature; an error exit does not depend on which erroneous feature is met first"},
-	{"Compiler.getEnabledFeaturesForPrefix", "c.verifiedFeatures.features", "set", "the enabled-feature list of a module is set-valued"},
-	{"Compiler.checkIdentities", "c.modules", "map+error", "collects identities into a map keyed by qualified name"},
-	{"Compiler.checkIdentities", "ids", "set", "links derived identities under their base; identityref membership is by name, the order of the derived list is not part of the value space"},
-	{"Compiler.findMissingImportStatement", "c.modules", "error-only", "only picks which import statement an error message points at"},
-	{"Compiler.ExpandModules", "c.submodules", "map+error", "attaches each submodule to its module's submodule map"},
-	{"Compiler.ExpandModules", "c.modules", "per-module", "include verification/merging and grouping validation are per module and touch only that module's tree; the import graph is built into a sorter whose vertices are sorted"},
-	{"Compiler.ExpandModules", "module.GetSubmodules()", "per-module", "per submodule, touches only that submodule"},
-	{"Compiler.VerifyModuleIncludes", "submodules", "sorted-later", "edges go into a topological sorter that orders its keys"},
-	{"convertSubmodules", "submods", "map", "map to map"},
-	{"Compiler.expandModule", "module.GetSubmodules()", "per-module", "expands the groupings of each submodule in place; submodules of one module do not refer to each other's expansion results"},
+	{"Compiler.getDeviations", "‹map[string]struct{}›", "set", "the list of deviating module names of a model is set-valued (membership only)"},
+	{"Compiler.checkFeatures", "‹*compile.Compiler›.modules", "map+error", "fills the verified-feature map per feature; an error exit does not depend on which erroneous feature is met first"},
+	{"Compiler.getEnabledFeaturesForPrefix", "‹*compile.Compiler›.verifiedFeatures.features", "set", "the enabled-feature list of a module is set-valued"},
+	{"Compiler.checkIdentities", "‹*compile.Compiler›.modules", "map+error", "collects identities into a map keyed by qualified name"},
+	{"Compiler.checkIdentities", "‹map[string]parse.Node›", "set", "links derived identities under their base; identityref membership is by name, the order of the derived list is not part of the value space"},
+	{"Compiler.findMissingImportStatement", "‹*compile.Compiler›.modules", "error-only", "only picks which import statement an error message points at"},
+	{"Compiler.ExpandModules", "‹*compile.Compiler›.submodules", "map+error", "attaches each submodule to its module's submodule map"},
+	{"Compiler.ExpandModules", "‹*compile.Compiler›.modules", "per-module", "include verification/merging and grouping validation are per module and touch only that module's tree; the import graph is built into a sorter whose vertices are sorted"},
+	{"Compiler.ExpandModules", "‹*parse.Module›.GetSubmodules()", "per-module", "per submodule, touches only that submodule"},
+	{"Compiler.VerifyModuleIncludes", "‹map[string]parse.Node›", "sorted-later", "edges go into a topological sorter that orders its keys"},
+	{"convertSubmodules", "‹map[string]*parse.Module›", "map", "map to map"},
 	{"PatternArg.Parse", "patternReplacements", "commutative", "independent textual replacements of distinct character-class names (one entry today)"},
-	{"node.checkCardinality", "n.card", "error-only", "first violated cell decides only the error text"},
-	{"node.checkCardinality", "cmap", "error-only", "first invalid substatement decides only the error text"},
-	{"newNodeByType", "yangCardinality(ntype)", "map", "map copy"},
-	{"newNodeByType", "tree.extCard(ntype)", "map", "map merge; extension cells override RFC cells regardless of order"},
-	{"NewFakeNodeByType", "cardinalities[ntype]", "map", "map copy"},
-	{"NewFakeNodeByType", "extCard(ntype)", "map", "map merge"},
-	{"GetModulesAndSubmodules", "mods", "map", "map to map"},
-	{"TEnv.Copy", "e.syms", "map", "map copy"},
-	{"GEnv.Copy", "e.syms", "map", "map copy"},
-	{"tree.Paths", "t.children", "set", "path list of a schema tree is set-valued"},
-	{"NewModelSet", "modules", "map+error", "merges top-level children into a name-keyed map; a clash is an error for either order"},
-	{"node.Paths", "n.children", "set", "path list is set-valued"},
-	{"genChildList", "children", "set", "the children of a schema node are a set by design (name-keyed map); every consumer looks children up by name or treats the list as unordered"},
-	{"genSchemaChildList", "children", "set", "same as genChildList"},
-	{"node.DefaultChildNames", "n.defChildren", "set", "set of names"},
-	{"node.addParentToChildren", "n.children", "per-element", "sets each child's parent pointer"},
-	{"checkNPContMustsInternal", "npContChildNodes", "collect", "collects independent validation results"},
-	{"getUnconfiguredNPContainerChildren", "npContChildNodes", "collect", "collects children by name"},
-	{"checkMandatory", "mandNodes", "error-only", "which missing mandatory node is reported first"},
-	{"checkUnique", "m", "collect", "collects one error per duplicated unique set; the error list is reported as a whole"},
-	{"JSONReader.unserializedChildren", "typeValue", "set", "the members of a JSON object are unordered by definition; list and leaf-list order is taken from JSON arrays (the other arm), not from this map"},
+	{"node.checkCardinality", "‹*parse.node›.card", "error-only", "first violated cell decides only the error text"},
+	{"node.checkCardinality", "‹map[parse.NodeType]int›", "error-only", "first invalid substatement decides only the error text"},
+	{"newNodeByType", "yangCardinality(‹parse.NodeType›)", "map", "map copy"},
+	{"newNodeByType", "‹*parse.Tree›.extCard(‹parse.NodeType›)", "map", "map merge; extension cells override RFC cells regardless of order"},
+	{"NewFakeNodeByType", "cardinalities[‹parse.NodeType›]", "map", "map copy"},
+	{"NewFakeNodeByType", "‹parse.NodeCardinality›(‹parse.NodeType›)", "map", "map merge"},
+	{"GetModulesAndSubmodules", "‹map[string]*parse.Tree›", "map", "map to map"},
+	{"TEnv.Copy", "‹*parse.TEnv›.syms", "map", "map copy"},
+	{"GEnv.Copy", "‹*parse.GEnv›.syms", "map", "map copy"},
+	{"tree.Paths", "‹*schema.tree›.children", "set", "path list of a schema tree is set-valued"},
+	{"NewModelSet", "‹map[string]schema.Model›", "map+error", "merges top-level children into a name-keyed map; a clash is an error for either order"},
+	{"node.Paths", "‹*schema.node›.children", "set", "path list is set-valued"},
+	{"genChildList", "‹map[string]schema.Node›", "set", "the children of a schema node are a set by design (name-keyed map); every consumer looks children up by name or treats the list as unordered"},
+	{"genSchemaChildList", "‹map[string]schema.Node›", "set", "same as genChildList"},
+	{"node.DefaultChildNames", "‹*schema.node›.defChildren", "set", "set of names"},
+	{"node.addParentToChildren", "‹*schema.node›.children", "per-element", "sets each child's parent pointer"},
+	{"checkNPContMustsInternal", "‹map[string]schema.Node›", "collect", "collects independent validation results"},
+	{"getUnconfiguredNPContainerChildren", "‹map[string]schema.Node›", "collect", "collects children by name"},
+	{"checkMandatory", "‹map[string]schema.Node›", "error-only", "which missing mandatory node is reported first"},
+	{"checkUnique", "‹map[string][]schema.xnode›", "collect", "collects one error per duplicated unique set; the error list is reported as a whole"},
+	{"JSONReader.unserializedChildren", "‹map[string]interface{}›", "set", "the members of a JSON object are unordered by definition; list and leaf-list order is taken from JSON arrays (the other arm), not from this map"},
 }
 
 // order-sensitive phases: must run over the sorted module order only
@@ -159,11 +159,23 @@ func c11MapOrder(w *World, r *Report) {
 				}
 				name := funcDeclName(fd)
 				expr := types.ExprString(rs.X)
+				norm := localFreeExpr(p, rs.X)
 				c := fmt.Sprintf("%s: range %s", name, expr)
+				if os.Getenv("YV_DUMP_MAPRANGES") != "" {
+					fmt.Printf("MAPRANGE\t%s\t%s\t%s\n", name, expr, norm)
+				}
+				// the table names the function (or the function a helper was split off) and
+				// the ranged expression with locals replaced by their types
+				names := []string{name}
+				if f, ok := p.TypesInfo.Defs[fd.Name].(*types.Func); ok {
+					names = w.OwnerNamesOf(f)
+				}
 				var rev *mapRangeReview
-				for i := range c11MapRanges {
-					if c11MapRanges[i].Func == name && c11MapRanges[i].Expr == expr {
-						rev = &c11MapRanges[i]
+				for _, nm := range names {
+					for i := range c11MapRanges {
+						if rev == nil && c11MapRanges[i].Func == nm && c11MapRanges[i].Expr == norm {
+							rev = &c11MapRanges[i]
+						}
 					}
 				}
 				// order-sensitive callee inside the body?
